@@ -148,3 +148,127 @@ pub open spec fn op_editables_fold(sp: PV, idx: &PthIndex, es: Seq<FsEntry>, n: 
         match op_editable_of(sp, idx, es[n - 1]) { Some(x) => prev.push(x), None => prev }
     }
 }
+/// (F7) discover_editable_installs for a given built index: not a directory — nothing happens; otherwise the OLD list is
+/// discarded and replaced by the installs of this directory's entries, in directory order (unreadable: the empty list)
+pub open spec fn op_discover(st: VSt, sp: PV, idx: &PthIndex) -> VSt {
+    if !fs_is_dir(sp) { st } else {
+        VSt { er: match fs_dir(sp) { Some(es) => op_editables_fold(sp, idx, es, es.len() as int), None => Seq::empty() }, ..st }
+    }
+}
+/// idx is a .pth index as build_pth_index returns it for sp (its iteration order is its own)
+pub open spec fn idx_ok(idx: &PthIndex, sp: PV) -> bool { hmv(idx) == op_pth_index(sp) }
+pub open spec fn disc_post(o: VSt, f: VSt, sp: PV, idx: PthIndex) -> bool { (fs_is_dir(sp) ==> idx_ok(&idx, sp)) && f == op_discover(o, sp, &idx) }
+
+// ---- the drivers ------------------------------------------------------------------------------------------------------------
+pub open spec fn ends_with_v(s: Seq<char>, t: Seq<char>) -> bool { occurs_at(s, st(t), s.len() - t.len()) }
+/// a directory entry of site-packages that is looked at for entry points: `*.dist-info` or `*.egg-info` (lossy name)
+pub open spec fn is_dist_meta(e: FsEntry) -> bool {
+    ends_with_v(lossy_name_v(fse_path(e)), dist_info_sfx()) || ends_with_v(lossy_name_v(fse_path(e)), egg_info_sfx())
+}
+pub open spec fn op_dist_step(st: VSt, sp: PV, e: FsEntry) -> (VSt, nat) {
+    if is_dist_meta(e) { op_load_plugin(st, fse_path(e), sp) } else { (st, 0) }
+}
+pub open spec fn op_dists_fold(st: VSt, sp: PV, es: Seq<FsEntry>, n: int) -> (VSt, nat)
+    decreases n
+{
+    if n <= 0 { (st, 0) } else {
+        let prev = op_dists_fold(st, sp, es, n - 1);
+        let step = op_dist_step(prev.0, sp, es[n - 1]);
+        (step.0, prev.1 + step.1)
+    }
+}
+/// (F8) scan_pytest_plugins for a given built index: editable installs first, then pytest's own `_pytest`, then every
+/// dist-info / egg-info entry of the directory, in directory order
+pub open spec fn op_scan_plugins(st: VSt, sp: PV, idx: &PthIndex) -> VSt {
+    op_dists_fold(op_internal(op_discover(st, sp, idx), sp), sp, dir_entries(sp), dir_entries(sp).len() as int).0
+}
+pub open spec fn plugins_post(o: VSt, f: VSt, sp: PV, idx: PthIndex) -> bool { (fs_is_dir(sp) ==> idx_ok(&idx, sp)) && f == op_scan_plugins(o, sp, &idx) }
+/// C11: `plugin_count` is a usize sum of the per-package counts; each is at most the number of pytest11 entries
+pub open spec fn ep_count(dist: PV) -> nat {
+    match fs_read(dist + str_pv(entry_points_txt())) { Some(c) => op_parse_pytest11(c).len(), None => 0 }
+}
+pub open spec fn ep_total(es: Seq<FsEntry>, n: int) -> nat
+    decreases n
+{
+    if n <= 0 { 0 } else { ep_total(es, n - 1) + ep_count(fse_path(es[n - 1])) }
+}
+/// the pytest11 entries of all packages of a site-packages directory fit a usize (fewer than 2^64)
+pub open spec fn ep_fits(sp: PV) -> bool { ep_total(dir_entries(sp), dir_entries(sp).len() as int) <= usize::MAX }
+pub proof fn lemma_entries_count(st: VSt, sp: PV, es: Seq<EpV>, n: int)
+    requires 0 <= n <= es.len(),
+    ensures op_entries_fold(st, sp, es, n).1 <= n,
+    decreases n,
+{
+    if n > 0 { lemma_entries_count(st, sp, es, n - 1); }
+}
+pub proof fn lemma_load_count(st: VSt, dist: PV, sp: PV)
+    ensures op_load_plugin(st, dist, sp).1 <= ep_count(dist),
+{
+    if let Some(c) = fs_read(dist + str_pv(entry_points_txt())) {
+        lemma_entries_count(st, sp, op_parse_pytest11(c), op_parse_pytest11(c).len() as int);
+    }
+}
+pub proof fn lemma_ep_total_mono(es: Seq<FsEntry>, k: int, n: int)
+    requires k <= n,
+    ensures ep_total(es, k) <= ep_total(es, n),
+    decreases n - k,
+{
+    if k < n { lemma_ep_total_mono(es, k, n - 1); }
+}
+
+pub open spec fn lib_name() -> Seq<char> { "lib"@ }
+pub open spec fn sp_dir_name() -> Seq<char> { "site-packages"@ }
+pub open spec fn python_pfx() -> Seq<char> { "python"@ }
+/// an entry of `<venv>/lib` that decides: a directory whose (lossy) name starts with `python` and that has a `site-packages`
+pub open spec fn sp_cand(e: FsEntry) -> bool {
+    fs_is_dir(fse_path(e)) && occurs_at(lossy_name_v(fse_path(e)), st(python_pfx()), 0) && fs_exists(fse_path(e) + str_pv(sp_dir_name()))
+}
+pub open spec fn first_sp(es: Seq<FsEntry>, k: int) -> Option<int>
+    decreases es.len() - k
+{
+    if k < 0 || k >= es.len() { None } else if sp_cand(es[k]) { Some(k) } else { first_sp(es, k + 1) }
+}
+/// the site-packages directory of a venv as the code finds it: the FIRST `lib/python*` entry (directory order) with a
+/// `site-packages`, else `Lib/site-packages`; canonicalised when possible
+pub open spec fn venv_sp(venv: PV) -> Option<PV> {
+    let lib = venv + str_pv(lib_name());
+    let unix = if fs_exists(lib) {
+        match fs_dir(lib) {
+            Some(es) => match first_sp(es, 0) { Some(k) => Some(canon_or_self(fse_path(es[k]) + str_pv(sp_dir_name()))), None => None },
+            None => None }
+    } else { None };
+    match unix {
+        Some(p) => Some(p),
+        None => if fs_exists(venv + str_pv(lib_sp())) { Some(canon_or_self(venv + str_pv(lib_sp()))) } else { None },
+    }
+}
+/// (F9) scan_venv_site_packages for a given built index
+pub open spec fn op_site_packages(st: VSt, venv: PV, idx: &PthIndex) -> VSt {
+    match venv_sp(venv) { Some(sp) => op_scan_plugins(VSt { sp: st.sp.push(sp), ..st }, sp, idx), None => st }
+}
+pub open spec fn sp_idx_ok(venv: PV, idx: &PthIndex) -> bool { match venv_sp(venv) { Some(sp) => fs_is_dir(sp) ==> idx_ok(idx, sp), None => true } }
+pub open spec fn site_post(o: VSt, f: VSt, venv: PV, idx: PthIndex) -> bool { sp_idx_ok(venv, &idx) && f == op_site_packages(o, venv, &idx) }
+pub open spec fn venv_names() -> Seq<Seq<char>> { seq![".venv"@, "venv"@, "env"@] }
+pub open spec fn first_venv(root: PV, k: int) -> Option<PV>
+    decreases venv_names().len() - k
+{
+    if k < 0 || k >= venv_names().len() { None } else if fs_exists(root + str_pv(venv_names()[k])) { Some(root + str_pv(venv_names()[k])) } else { first_venv(root, k + 1) }
+}
+pub open spec fn virtual_env_name() -> Seq<char> { "VIRTUAL_ENV"@ }
+/// the virtual environment that is scanned: the first EXISTING of `<root>/.venv`, `<root>/venv`, `<root>/env`; only if
+/// none of them exists: `$VIRTUAL_ENV` (when set and existing, canonicalised)
+pub open spec fn venv_of(root: PV) -> Option<PV> {
+    match first_venv(root, 0) {
+        Some(v) => Some(v),
+        None => match env_var(virtual_env_name()) {
+            Some(t) => if fs_exists(str_pv(t)) { Some(canon_or_self(str_pv(t))) } else { None },
+            None => None },
+    }
+}
+/// (F10) scan_venv_fixtures for a given built index
+pub open spec fn op_venv(st: VSt, root: PV, idx: &PthIndex) -> VSt {
+    match venv_of(root) { Some(v) => op_site_packages(st, v, idx), None => st }
+}
+pub open spec fn venv_post(o: VSt, f: VSt, root: PV, idx: PthIndex) -> bool {
+    (match venv_of(root) { Some(v) => sp_idx_ok(v, &idx), None => true }) && f == op_venv(o, root, &idx)
+}
